@@ -80,6 +80,13 @@ pub struct C19Scenario {
     pub edits: Vec<Edit>,
     #[serde(default)]
     pub transport: Transport,
+    /// earlier connections served by the same exporter before the checked scrape (C20 client /
+    /// observation-socket behaviours: aborted, reset, failed scrapes), run while the instance was
+    /// in the state of snapshot `prelude_snapshot`
+    #[serde(default)]
+    pub prelude: Vec<Step>,
+    #[serde(default)]
+    pub prelude_snapshot: u32,
 }
 
 pub const TOPOS: [&str; 6] = ["gm", "pair", "pair_p2p", "chain3", "bc3", "dual"];
@@ -245,7 +252,17 @@ pub fn c19_scenarios(base_seed: u64, tier: Tier) -> Vec<Scenario> {
             }
             let snapshot = ch.choose(S_CFG, 1 << 32) as u32;
             let transport = gen_transport(&mut ch);
-            out.push(Scenario { id, body: Body::C19(C19Scenario { world: recipe.clone(), snapshot, edits, transport }) });
+            // a quarter of the scrapes follow one or two earlier connections that went wrong in some
+            // way while the instance was in another state (what they leave behind must not show)
+            let mut prelude = Vec::new();
+            let mut prelude_snapshot = 0u32;
+            if ch.chance(S_FAULT, 1, 4) {
+                prelude_snapshot = ch.choose(S_FAULT, 1 << 32) as u32;
+                for _ in 0..ch.range(S_FAULT, 1, 2) {
+                    prelude.push(c20_random_step(&mut ch));
+                }
+            }
+            out.push(Scenario { id, body: Body::C19(C19Scenario { world: recipe.clone(), snapshot, edits, transport, prelude, prelude_snapshot }) });
             id += 1;
         }
     }
